@@ -99,7 +99,7 @@ def scenarios(run):
         cfg = dict(base, N=1, r=2.5, seed=sd, kpre=2, nsym=3, script=[('solve',)], iters_limit=4, eps='sym', density=2, tags=['coarse-density'])
         out.append((cfg, 'Solve with evolventDensity=2, itersLimit=4, prefix f#%d, eps symbolic' % sd))
     # a long run on a coarse 2-D evolvent: several trials share an image point; every one of them is an evaluation and a reported trial
-    for sd in seeds[:2]:
+    for sd in (0, 1):       # fixed prefix functions: in 2-D the lengths are square roots, and the cost of the exact run varies a lot between functions
         cfg = dict(base, N=2, r=2.5, seed=sd, kpre=13, nsym=1, script=[('iter', 12), ('solve',)], iters_limit=14, eps=1e-9, density=2, tags=['coarse-2d'])
         out.append((cfg, 'N=2 density 2: 14 trials of a concrete run (trials sharing an image), prefix f#%d' % sd))
     # refinement must not touch the count of global trials
